@@ -25,6 +25,10 @@ def cells(tier):
                 or (q and rn != "A2" and dn in heavy and (len(o) > 1 or cn == "slowecb")))
     out += grid(MON, [1, 2], ["A2|M3/2"], light + (["cgroupM"] if not q else []), ["plain"], [["ret"]] if q else [["ret", "exc"]])
     out += grid(MON, [1] if q else [1, 2], ["A2|M3/2"], ["cancel0+flush", "call+flush"], ["slowccb"] if q else ["plain", "slowccb", "slowecb"], [["ret"]])
+    for size in [2, 3]:
+        for fl in (FLUSH, FLUSH_RE):
+            sc = scen(pool(size), [[A("A", 3)], [cancel(rid("A", 0))], [fl]], outcomes=["ret", "exc"], ecb="plain", ccb="slow", slow_ids=[0])
+            out.append(cell(f"s{size} A3 cancel0 {fl} slowccb0 ret/exc", sc, MON))
     for size in [1, 2]:
         for dn, da in {
             "stop1": [[["stop", 1]]],
